@@ -140,6 +140,8 @@ func main() {
 		runAugment(readFrontCases(*inputs), *outDir)
 	case "front":
 		runFront(readFrontCases(*inputs), *outDir)
+	case "split":
+		runSplit(readFrontCases(*inputs), *outDir)
 	case "comments":
 		// file names on stdin -> (case ID generated (groups ...) (doc ...)) lines
 		sc := bufio.NewScanner(os.Stdin)
